@@ -9,6 +9,7 @@ Vals == Near(0) \cup Near(9999) \cup Near(-9999) \cup Near(20000) \cup Near(-200
 Ks == {1, 2, 7, 12, 24, 60, 400, 9999, 10000, 10001, 86400, 146097, 200000}
 RECURSIVE Pow2(_)
 Pow2(n) == IF n = 0 THEN W(1) ELSE WMulSmall(Pow2(n - 1), 2)
+ASSUME WDec(I64Min) = <<45, 57,50,50,51,51,55,50,48,51,54,56,53,52,55,55,53,56,48,56>> /\ WDec(W(0)) = <<48>> /\ WDec(W(-10001)) = <<45,49,48,48,48,49>> /\ WDecPad(W(7), 3) = <<48,48,55>> /\ Pow10(15) = WMul(Pow10(8), Pow10(7)) /\ WDec(Pow10(5)) = <<49,48,48,48,48,48>>
 ASSUME I64Max = Pow2(63) \ominus W(1) /\ I64Min = WNeg(Pow2(63))
 VARIABLES a, b
 Init == a \in Vals /\ b \in Vals
@@ -33,6 +34,8 @@ OK == /\ IsWide(W(a)) /\ WInt(W(a)) = a
            /\ WDivMod(big \oplus W(b % 86400), 86400) = <<WMulSmall(W(a), 146097), b % 86400>>
            /\ (big \oplus W(b)) \ominus big = W(b)
            /\ WMul(WMulSmall(W(a), 146097), W(86400)) = big
+      /\ WDec(W(a)) = WDec(W(a)) /\ Len(WDec(W(a))) >= 1
+      /\ (b # 0) => LET k == IF b < 0 THEN -b ELSE b  r == WFloorDiv(W(a), W(k)) IN WInt(r[1]) = a \div k /\ WInt(r[2]) = a % k
       /\ InI64(I64Max) /\ InI64(I64Min) /\ ~InI64(I64Max \oplus W(1)) /\ ~InI64(I64Min \ominus W(1))
       /\ IsWide(I64Max) /\ IsWide(I64Min) /\ I64Max \oplus I64Min = W(-1)
 =============================================================================
